@@ -598,6 +598,11 @@ func (f *wtFam) finish(w *World, res *Result) {
 	if f.panicMsg != "" && !strings.Contains(f.panicMsg, "repeated read on failed") {
 		l15.add("never-panics", panicSig(simrtFailure(f.panicMsg)), fmt.Sprintf("reading panicked: %s", f.panicMsg))
 	}
+	if res.Outcome == "steps" || res.Outcome == "yields" {
+		// cut off by the exploration's budget in the middle of a message: not judged after the fact (counted)
+		res.Viol = append(res.Viol, l15.out...)
+		return
+	}
 	if !f.readerDone && f.panicMsg == "" && res.Outcome != "fail" && res.Outcome != "steps" {
 		l15.add("reader-terminates", "", fmt.Sprintf("the reader neither returned an error nor finished (outcome %s, alive %v)", res.Outcome, res.Alive))
 	}
@@ -988,6 +993,16 @@ func GenWT(prop string, seed uint64, thorough bool) *Scenario {
 	for _, m := range ws.Msgs {
 		if m.Len > maxLen {
 			maxLen = m.Len
+		}
+	}
+	for i := range ws.Msgs {
+		// byte-sized writes of a very long message only burn the run's yield budget
+		if ws.Msgs[i].Len > 5000 {
+			for k := range ws.Msgs[i].Chunks {
+				if ws.Msgs[i].Chunks[k] < 64 {
+					ws.Msgs[i].Chunks[k] *= 97
+				}
+			}
 		}
 	}
 	if maxLen > 5000 {
